@@ -54,7 +54,7 @@ than 300 cycles; "200 us of non-idle" is read as "200 us have passed and the lin
 from bisect import bisect_right
 
 PROPERTY = "C19"
-CASES = {"quick": 112, "thorough": 2400}
+CASES = {"quick": 100, "thorough": 2000}
 TIMEOUT = {"quick": 1500, "thorough": 6 * 3600}
 RULE = ("case = one reactive session of 0.2-1.2 M cycles on the real-constant USBResetSequencer drawn from four families "
         "(FS/LS playground, HS handshake, HS idle/suspend/reset, handshake time-out); durations drawn around 150/300/12000/"
@@ -315,10 +315,10 @@ async def connect(d, mode):
     await d.wait(rng.randint(5, 300))
 
 
-async def glitch(d, avoid):
-    """1-3 cycles of a line state different from `avoid`."""
+async def glitch(d, avoid, avoid2=None):
+    """1-3 cycles of a line state different from `avoid` (and `avoid2`)."""
     rng = d.rng
-    v = rng.choice([x for x in (SE0, FS_J, FS_K, SE1) if x != avoid])
+    v = rng.choice([x for x in (SE0, FS_J, FS_K, SE1) if x != avoid and x != avoid2])
     await d.line(v, rng.randint(1, 3))
     return v
 
@@ -330,7 +330,7 @@ async def se0_probes(d, n, thr, allow_reset):
     for _ in range(n):
         if d.in_chirp_mode() or (thr == T_2P5US and not d.out["susp"]):
             return
-        back = d.idle() if not d.out["susp"] else (FS_K if d.out["speed"] == SPD_LS else FS_J)
+        back = d.idle() if not d.out["susp"] else (FS_K if d.val["lso"] else FS_J)
         kind = rng.choice(["below", "below", "near", "half", "rand", "split", "split"])
         hi = thr - 1 if not allow_reset else thr + 60
         if kind == "below":
@@ -351,11 +351,12 @@ async def se0_probes(d, n, thr, allow_reset):
             a = rng.randint(thr // 2, thr - 1)
             b = rng.randint(thr - a + 1, thr - 1)
             d.mark("split_%d" % thr)
+            resume_k = (FS_J if d.val["lso"] else FS_K) if d.out["susp"] else None     # a K would end the suspend
             await d.line(SE0, a)
-            await glitch(d, SE0)
+            await glitch(d, SE0, resume_k)
             await d.line(SE0, b)
             if rng.random() < 0.3:
-                await glitch(d, SE0)
+                await glitch(d, SE0, resume_k)
                 await d.line(SE0, rng.randint(1, thr - 1))
         await d.line(back, rng.randint(3, 80))
 
@@ -718,7 +719,7 @@ async def session_hs_walk(d):
     d.res.desc["mode"] = "hs"
     d.res.desc["walk"] = walk = []
     await connect(d, "hs")
-    budget = rng.randint(450000, 800000)
+    budget = rng.randint(400000, 700000)
     had_hs_suspend = False
     last_partial = False
     n_handshakes = 0
@@ -788,7 +789,140 @@ async def session_hs_walk(d):
                 await d.line(d.idle(), 10)
 
 
-SESSIONS = [("playground", session_playground, 33), ("hs_walk", session_hs_walk, 67)]
+async def fs_to_handshake(d, kind, busy_p=0.4, restr_p=0.4):
+    """from FS (not suspended): a few harmless SE0 pulses, a bus reset, the handshake.  Returns 'hs' / 'fallback' / 'lost'."""
+    rng = d.rng
+    await se0_probes(d, rng.randint(1, 4), T_5US, allow_reset=False)
+    if d.restricted():
+        d.set("fso", 0); d.set("lso", 0)
+        await d.wait(rng.randint(2, 30))
+    await reset_from_fs(d)
+    r = await run_handshake(d, kind, busy=rng.random() < busy_p, restr_games=rng.random() < restr_p)
+    if r != "hs":
+        await d.line(FS_J, rng.randint(10, 200))
+        await d.line(d.idle(), 10)
+    return r
+
+
+WINDOW_SUSPEND = ["j", "late_j", "late_j", "blip"]
+WINDOW_RESET = ["se0", "k", "j_then_se0", "j_then_se0"]
+
+
+async def hs_idle_episode(d, variants, restrict_p):
+    """at HS: 3 ms of SE0 and the 200 us window.  Returns 'suspend' / 'reset' / 'lost'."""
+    rng = d.rng
+    await hs_games(d)
+    if not await hs_three_ms(d, split=rng.random() < 0.25):
+        return "lost"
+    variant = rng.choice(variants)
+    restrict = rng.random() < restrict_p
+    w = await hs_window(d, variant, restrict)
+    d.res.desc.setdefault("walk", []).append("hs_3ms_%s%s_%s" % (variant, "_restricted" if restrict else "", w))
+    if w == "reset":
+        await run_handshake(d, "valid", restr_games=False)
+        if d.restricted():
+            await d.wait(rng.randint(1, 20))
+            d.set("fso", 0); d.set("lso", 0)
+            d.set("line", FS_J); await d.wait(10); d.set("line", d.idle())
+    return w
+
+
+async def plan_resume_then_fs_suspend(d):
+    rng = d.rng
+    if await fs_to_handshake(d, "valid", restr_p=0) != "hs":
+        return
+    if await hs_idle_episode(d, WINDOW_SUSPEND, 0.25) != "suspend":
+        return
+    if d.restricted():
+        d.set("fso", 0); d.set("lso", 0)
+    await suspended_games(d, "resume")
+    await d.wait(6)
+    if not d.hs_op():
+        return
+    await hs_games(d)
+    await hs_exit(d, rng.choice(["restrict", "restrict", "vbus"]))
+    if d.hs_op() or d.in_chirp_mode() or d.out["susp"]:
+        return
+    d.mark("fs_suspend_after_hs_suspend")
+    if await fs_suspend(d, "plain"):
+        await suspended_games(d, "resume")
+        await d.wait(10)
+        await d.line(d.idle(), 50)
+
+
+async def plan_hs_reset_chain(d):
+    rng = d.rng
+    if await fs_to_handshake(d, "valid", restr_p=0) != "hs":
+        return
+    for _ in range(rng.randint(1, 2)):
+        if not d.hs_op():
+            return
+        w = await hs_idle_episode(d, WINDOW_RESET if rng.random() < 0.8 else WINDOW_SUSPEND, 0.45)
+        if w == "suspend":
+            if d.restricted():
+                d.set("fso", 0); d.set("lso", 0)
+            await suspended_games(d, "resume")
+            await d.wait(6)
+
+
+async def plan_timeout(d):
+    rng = d.rng
+    await fs_to_handshake(d, "partial", busy_p=0.3, restr_p=0.2)
+    d.mark("second_handshake")
+    if await fs_to_handshake(d, "valid") == "hs":
+        await hs_games(d)
+        await hs_exit(d, rng.choice(["restrict", "vbus", "disc"]))
+
+
+async def plan_handshake_exits(d):
+    rng = d.rng
+    for _ in range(2):
+        if await fs_to_handshake(d, "valid", busy_p=0.6, restr_p=0.6) == "hs":
+            await hs_games(d)
+            await hs_exit(d, rng.choice(["restrict", "vbus", "vbus", "disc", "disc"]))
+
+
+async def plan_suspend_reset(d):
+    rng = d.rng
+    if await fs_to_handshake(d, "valid", restr_p=0) != "hs":
+        return
+    if await hs_idle_episode(d, WINDOW_SUSPEND, 0.2) != "suspend":
+        return
+    if d.restricted() and rng.random() < 0.6:
+        d.set("fso", 0); d.set("lso", 0)
+    await suspended_games(d, "reset")
+    await d.wait(6)
+    if d.in_chirp_mode():
+        if await run_handshake(d, "valid") == "hs":
+            await hs_games(d)
+            await hs_exit(d, rng.choice(["restrict", "vbus", "disc"]))
+    else:
+        await d.line(d.idle(), rng.randint(5, 60))
+        await se0_probes(d, rng.randint(1, 4), T_5US, allow_reset=d.restricted())
+
+
+PLANS = [("resume_then_fs_suspend", plan_resume_then_fs_suspend, 22), ("hs_reset_chain", plan_hs_reset_chain, 20),
+         ("timeout", plan_timeout, 20), ("handshake_exits", plan_handshake_exits, 16),
+         ("suspend_reset", plan_suspend_reset, 11), ("walk", None, 11)]
+
+
+async def session_hs(d):
+    rng = d.rng
+    pick = rng.randrange(sum(w for _n, _f, w in PLANS))
+    for pname, pfn, w in PLANS:
+        if pick < w:
+            break
+        pick -= w
+    d.res.desc["plan"] = pname
+    d.res.sig(pname)
+    if pfn is None:
+        return await session_hs_walk(d)
+    d.res.desc["mode"] = "hs"
+    await connect(d, "hs")
+    await pfn(d)
+
+
+SESSIONS = [("playground", session_playground, 28), ("hs", session_hs, 72)]
 
 
 # ------------------------------------------------------------------------------------------- the judge
